@@ -72,6 +72,23 @@ func (t *abiTy) String() string {
 	return t.name
 }
 
+// typeOnly is String without the component names.
+func (t *abiTy) typeOnly() string {
+	switch t.kind {
+	case "tuple":
+		var p []string
+		for _, f := range t.ftypes {
+			p = append(p, f.typeOnly())
+		}
+		return "(" + strings.Join(p, ",") + ")"
+	case "slice":
+		return t.elem.typeOnly() + "[]"
+	case "array":
+		return fmt.Sprintf("%s[%d]", t.elem.typeOnly(), t.n)
+	}
+	return t.String()
+}
+
 // abiParse parses the canonical form produced by (*abiTy).String.
 func abiParse(s string, pos *int) (*abiTy, bool) {
 	var t *abiTy
@@ -368,7 +385,9 @@ func init() {
 				it.abort("abi model: cannot parse type %q", canon)
 			}
 			ts[i] = t
-			sig = append(sig, canon)
+			// the encoding depends on the component TYPES only: component names select the Go fields (above)
+			// but do not change a byte of the output, so they are not part of the function family
+			sig = append(sig, t.typeOnly())
 		}
 		size := e.seq(ts, vals, gts)
 		if e.err != "" {
